@@ -24,7 +24,8 @@ for name in names:
     else:
         wt = "/tmp/seedrun_%s_%d" % (pid, os.getpid())
         subprocess.run(["git", "-C", "/repo", "worktree", "add", "--detach", "-q", wt, "HEAD"], check=True)
-        subprocess.run(["git", "-C", wt, "apply", patch], check=True)
+        if subprocess.run(["git", "-C", wt, "apply", patch]).returncode != 0:
+            subprocess.run(["git", "-C", wt, "apply", "--3way", patch], check=True)
     t0 = time.time()
     try:
         p = subprocess.run([os.path.join(ROOT, "check"), pid, "--tier", tier], cwd=ROOT,
